@@ -10,6 +10,7 @@ let () =
   | _ :: "resolve" :: _ -> L_resolve.run ()
   | _ :: "lspdoc" :: _ -> L_lspdoc.run ()
   | _ :: "peg" :: _ -> L_peg.run ()
+  | _ :: "resp" :: _ -> L_resp.run ()
   | _ ->
       prerr_endline "usage: oalmodel <layer>";
       exit 2
